@@ -27,6 +27,12 @@ fn collect_vars(p: &Program, f: &FnDecl) -> VarTypes {
                             m.insert(*x, t.clone());
                             go(p, e, m);
                         }
+                        Stmt::LetTup(xs, t, e) => {
+                            for (x, mt) in xs.iter().zip(p.members(t)) {
+                                m.insert(*x, mt);
+                            }
+                            go(p, e, m);
+                        }
                         Stmt::Expr(e) => go(p, e, m),
                     }
                 }
@@ -65,8 +71,10 @@ pub fn for_children(e: &Expr, f: &mut dyn FnMut(&Expr)) {
         | Expr::ArrAt(_, a)
         | Expr::Snap(a)
         | Expr::Desnap(a)
+        | Expr::BoxNew(a)
+        | Expr::Unbox(a)
         | Expr::Loop(_, _, a) => f(a),
-        Expr::Bin(_, _, a, b) | Expr::AndAlso(a, b) | Expr::OrElse(a, b) | Expr::While(_, a, b) => {
+        Expr::Bin(_, _, a, b) | Expr::Arith(_, _, _, a, b) | Expr::AndAlso(a, b) | Expr::OrElse(a, b) | Expr::While(_, a, b) => {
             f(a);
             f(b)
         }
@@ -88,7 +96,7 @@ pub fn for_children(e: &Expr, f: &mut dyn FnMut(&Expr)) {
         Expr::Block(stmts, tail) => {
             for s in stmts {
                 match s {
-                    Stmt::Let(_, _, e) | Stmt::Expr(e) => f(e),
+                    Stmt::Let(_, _, e) | Stmt::LetTup(_, _, e) | Stmt::Expr(e) => f(e),
                 }
             }
             f(tail)
@@ -123,6 +131,13 @@ fn map_children(e: &Expr, f: &mut dyn FnMut(&Expr) -> Expr) -> Expr {
         Expr::ArrAt(x, a) => Expr::ArrAt(*x, b(a)),
         Expr::Snap(a) => Expr::Snap(b(a)),
         Expr::Desnap(a) => Expr::Desnap(b(a)),
+        Expr::BoxNew(a) => Expr::BoxNew(b(a)),
+        Expr::Unbox(a) => Expr::Unbox(b(a)),
+        Expr::Arith(k, o, t, x, y) => {
+            let x2 = b(x);
+            let y2 = b(y);
+            Expr::Arith(*k, *o, t.clone(), x2, y2)
+        }
         Expr::Loop(l, t, a) => Expr::Loop(*l, t.clone(), b(a)),
         Expr::Bin(o, t, x, y) => {
             let x2 = b(x);
@@ -164,6 +179,7 @@ fn map_children(e: &Expr, f: &mut dyn FnMut(&Expr) -> Expr) -> Expr {
                 .iter()
                 .map(|s| match s {
                     Stmt::Let(x, t, e) => Stmt::Let(*x, t.clone(), f(e)),
+                    Stmt::LetTup(xs, t, e) => Stmt::LetTup(xs.clone(), t.clone(), f(e)),
                     Stmt::Expr(e) => Stmt::Expr(f(e)),
                 })
                 .collect();
@@ -228,6 +244,16 @@ fn type_of(p: &Program, vt: &VarTypes, e: &Expr) -> Option<Ty> {
         Expr::ArrLen(_) => Ty::Int(Ity::U32),
         Expr::ArrAt(x, _) => elem(vt.get(x)?)?,
         Expr::Snap(a) => Ty::Snap(Box::new(type_of(p, vt, a)?)),
+        Expr::BoxNew(a) => Ty::Boxed(Box::new(type_of(p, vt, a)?)),
+        Expr::Unbox(a) => match type_of(p, vt, a)? {
+            Ty::Boxed(t) => *t,
+            _ => return None,
+        },
+        Expr::Arith(k, _, t, _, _) => match k {
+            ArithK::Wrapping | ArithK::Saturating => t.clone(),
+            ArithK::Overflowing => Ty::Tup(vec![t.clone(), Ty::Bool]),
+            ArithK::Checked => Ty::Opt(Box::new(t.clone())),
+        },
         Expr::Desnap(a) => match type_of(p, vt, a)? {
             Ty::Snap(t) => *t,
             _ => return None,
@@ -256,6 +282,7 @@ fn default_of(p: &Program, t: &Ty, alt: bool) -> Option<Expr> {
             Expr::Enum(t.clone(), i, Box::new(pl))
         }
         Ty::Snap(t) => Expr::Snap(Box::new(default_of(p, t, alt)?)),
+        Ty::Boxed(t) => Expr::BoxNew(Box::new(default_of(p, t, alt)?)),
         Ty::Arr(_) => return None,
     })
 }
@@ -287,10 +314,11 @@ fn node_variants(p: &Program, vt: &VarTypes, e: &Expr) -> Vec<Expr> {
             let n = stmts.len();
             let removable = |j: usize| -> bool {
                 match &stmts[j] {
+                    Stmt::LetTup(..) => false,
                     Stmt::Let(x, _, _) => {
                         // a later re-binding of the same name does not make the name unused
                         !stmts[j + 1..].iter().any(|s| match s {
-                            Stmt::Let(_, _, e) | Stmt::Expr(e) => uses_var(e, *x),
+                            Stmt::Let(_, _, e) | Stmt::LetTup(_, _, e) | Stmt::Expr(e) => uses_var(e, *x),
                         }) && !uses_var(tail, *x)
                     }
                     Stmt::Expr(_) => true,
@@ -301,9 +329,10 @@ fn node_variants(p: &Program, vt: &VarTypes, e: &Expr) -> Vec<Expr> {
                     let keep: Vec<Stmt> =
                         stmts.iter().enumerate().filter(|(j, _)| *j < lo || *j >= hi).map(|(_, s)| s.clone()).collect();
                     let ok = (lo..hi).all(|j| match &stmts[j] {
+                        Stmt::LetTup(..) => false,
                         Stmt::Let(x, _, _) => {
                             !keep.iter().any(|s| match s {
-                                Stmt::Let(_, _, e) | Stmt::Expr(e) => uses_var(e, *x),
+                                Stmt::Let(_, _, e) | Stmt::LetTup(_, _, e) | Stmt::Expr(e) => uses_var(e, *x),
                             }) && !uses_var(tail, *x)
                         }
                         _ => true,
@@ -404,8 +433,10 @@ fn collect_children<'a>(e: &'a Expr, out: &mut Vec<&'a Expr>) {
         | Expr::ArrAt(_, a)
         | Expr::Snap(a)
         | Expr::Desnap(a)
+        | Expr::BoxNew(a)
+        | Expr::Unbox(a)
         | Expr::Loop(_, _, a) => out.push(a),
-        Expr::Bin(_, _, a, b) | Expr::AndAlso(a, b) | Expr::OrElse(a, b) | Expr::While(_, a, b) => {
+        Expr::Bin(_, _, a, b) | Expr::Arith(_, _, _, a, b) | Expr::AndAlso(a, b) | Expr::OrElse(a, b) | Expr::While(_, a, b) => {
             out.push(a);
             out.push(b)
         }
@@ -427,7 +458,7 @@ fn collect_children<'a>(e: &'a Expr, out: &mut Vec<&'a Expr>) {
         Expr::Block(stmts, tail) => {
             for s in stmts {
                 match s {
-                    Stmt::Let(_, _, e) | Stmt::Expr(e) => out.push(e),
+                    Stmt::Let(_, _, e) | Stmt::LetTup(_, _, e) | Stmt::Expr(e) => out.push(e),
                 }
             }
             out.push(tail)
